@@ -12,7 +12,7 @@ from . import algebra as A
 from .algebra import Poly, Frac, SymBool, mkcond, decide, Inf
 
 
-class EngineGap(Exception):
+class EngineGap(BaseException):
     """the symbolic model cannot express this operation (never a property verdict)"""
 
 
